@@ -141,3 +141,41 @@ def pick_samples(items, seed, n=3):
     for i in range(n):
         out.append(items[(seed * 7919 + i * 104729) % len(items)])
     return out
+
+
+def level_bfs(expand, roots, depth):
+    """level-synchronous parallel BFS with a global seen-set.
+    expand((item, last)) -> dict(children=[(key, item)], + Agg-able counters); roots: [(key, item)].
+    -> (Agg, number of states)"""
+    agg = Agg()
+    seen = set(k for k, _ in roots)
+    frontier = [it for _, it in roots]
+    n = workers()
+    ctx = multiprocessing.get_context('fork')
+    pool = ctx.Pool(n) if n > 1 else None
+    try:
+        for level in range(depth + 1):
+            last = level == depth
+            tasks = [(it, last) for it in frontier]
+            if pool is not None and len(tasks) > 1:
+                results = pool.map(expand, tasks, max(1, len(tasks) // (n * 8)))
+            else:
+                results = [expand(t) for t in tasks]
+            nxt = []
+            for r in results:
+                agg.add(r)
+                for key, item in r.get('children', ()):
+                    if key not in seen:
+                        seen.add(key)
+                        nxt.append(item)
+            agg.programs = 0
+            agg.max_depth = level
+            frontier = nxt
+            if not frontier:
+                break
+    finally:
+        if pool is not None:
+            pool.close()
+            pool.join()
+    agg.states = len(seen)
+    return agg
